@@ -230,6 +230,7 @@ var (
 	reMutex   = regexp.MustCompile(`\bsync\.Mutex\b`)
 	reRWMutex = regexp.MustCompile(`\bsync\.RWMutex\b`)
 	reSyncUse = regexp.MustCompile(`\bsync\.[A-Za-z]`)
+	reComment = regexp.MustCompile(`(?m)//.*$`)
 	reSyncImp = regexp.MustCompile(`(?m)^\s*"sync"\n`)
 )
 
@@ -238,7 +239,7 @@ var (
 func useSimulatedMutexes(text string) string {
 	text = reMutex.ReplaceAllString(text, "simMutex")
 	text = reRWMutex.ReplaceAllString(text, "simRWMutex")
-	if !reSyncUse.MatchString(text) {
+	if !reSyncUse.MatchString(reComment.ReplaceAllString(text, "")) {
 		text = reSyncImp.ReplaceAllString(text, "")
 		text = strings.Replace(text, "import \"sync\"\n", "", 1)
 	}
